@@ -387,10 +387,48 @@ def r_commutator_messages(ctx: Ctx, rule: str) -> None:
                 inst = f"{fi.module.rel}:{fi.qualname}:{call.lineno - fi.node.lineno}"
                 if isinstance(msg, (ast.JoinedStr, ast.Constant)) and not (isinstance(msg, ast.Constant) and isinstance(msg.value, tuple)):
                     run.fail(rule, inst, f"UnaryCommutator(messages={src(msg)[:50]}) is a string, not a tuple of strings", fi=fi, node=call)
+                elif isinstance(msg, (ast.List, ast.ListComp, ast.Set, ast.SetComp, ast.GeneratorExp)) or (isinstance(msg, ast.Call) and isinstance(msg.func, ast.Name) and msg.func.id in ("list", "set")):
+                    run.fail(rule, inst, f"UnaryCommutator(messages={src(msg)[:50]}) is a {type(msg).__name__.lower()}, not a tuple: backtracking concatenates messages with `+` (tuple + list raises TypeError two levels up)", fi=fi, node=call)
                 else:
                     run.ok(rule, inst)
     if n == 0:
         raise AnalysisError("no UnaryCommutator construction with messages found")
+    # the third element of every backtrack_unary result is a tuple as well
+    for fi in m.all_functions():
+        if fi.name != "backtrack_unary":
+            continue
+        for i, p in enumerate(ctx.paths(fi)):
+            v = p.value
+            if p.outcome != "return" or not (isinstance(v, ast.Tuple) and len(v.elts) == 3):
+                continue
+            msg = v.elts[2]
+            inst = f"{fi.module.rel}:{fi.qualname}:path{i}:messages"
+
+            def _tuple_typed(e: ast.expr, depth: int = 3) -> bool:
+                if isinstance(e, ast.Tuple):
+                    return True
+                if isinstance(e, ast.Constant) and isinstance(e.value, tuple):
+                    return True
+                if isinstance(e, ast.BinOp) and isinstance(e.op, ast.Add):
+                    return _tuple_typed(e.left, depth) and _tuple_typed(e.right, depth)
+                if isinstance(e, ast.Attribute) and e.attr == "messages":
+                    return True  # a commutator's messages (checked above)
+                if isinstance(e, ast.Call) and isinstance(e.func, ast.Name) and e.func.id == "tuple":
+                    return True
+                if isinstance(e, ast.Name) and depth > 0:
+                    from ..paths import env_at as _env_at
+
+                    b = _env_at(p).get(e.id)
+                    if isinstance(b, tuple) and b[0] == "unpack" and isinstance(b[1], ast.Call) and call_attr(b[1]) == "backtrack_unary" and b[2] == 2:
+                        return True  # the messages of a recursive result
+                    if isinstance(b, ast.expr):
+                        return _tuple_typed(b, depth - 1)
+                return False
+
+            if _tuple_typed(msg):
+                run.ok(rule, inst)
+            else:
+                run.fail(rule, inst, f"backtrack_unary returns its messages as `{src(msg)[:50]}`, not a tuple: the iteration engine concatenates them with `+` on the way up, so a request that should end in the documented EngineError (or a transfer) ends in TypeError", fi=fi, node=p.node)
 
 
 def r_no_swallowed_exceptions(ctx: Ctx, rule: str) -> None:
@@ -547,3 +585,122 @@ def r_no_tag_ordering(ctx: Ctx, rule: str) -> None:
                 run.fail(rule, inst, f"`{src(c)[:70]}` orders column tags themselves: tags only promise equality and hashing, so this raises TypeError for the caller's tag class (here instead of the result or the documented error)", fi=f, node=c)
     if n == 0:
         raise AnalysisError("no ordering call left in the package (the positive example of this rule is gone)")
+
+
+def r_self_attributes_defined(ctx: Ctx, rule: str) -> None:
+    """`self.x` in a method must be something the class (or a base) defines: otherwise the read fails for the instances
+    that are not of the subclass the author had in mind - typically inside an error path, replacing the documented error."""
+    run, m = ctx.run, ctx.m
+    run.rule(
+        rule,
+        "every attribute a method reads from `self` is defined by its class or a base (field, annotation, method, property, "
+        "class attribute, or an attribute some method of the hierarchy assigns): reading an attribute that only a sibling "
+        "or subclass has raises AttributeError for every other instance",
+        expected_min=100,
+    )
+    safe_external = {"ABC", "Generic", "Protocol", "Hashable", "object"}
+    # classes the package itself instantiates by name (a mixin / base that is never constructed may rely on its subclasses)
+    constructed = {(dotted(x.func) or "").split(".")[-1] for mod in m.modules.values() for x in ast.walk(mod.tree) if isinstance(x, ast.Call)}
+    n = 0
+    for c in m.all_classes():
+        if c.module.rel.startswith("tests"):
+            continue
+        mro = m.mro(c)
+        if any((b.split("[")[0].split(".")[-1] not in safe_external) for k in mro for b in k.external_bases):
+            continue  # inherits from a class this model does not know
+        defined: set[str] = set()
+        for k in mro:
+            defined |= set(k.methods) | set(k.class_assigns) | set(k.own_annotations) | {f.name for f in k.own_fields}
+            for f in k.methods.values():
+                for x in ast.walk(f.node):
+                    if isinstance(x, ast.Attribute) and isinstance(x.ctx, ast.Store) and isinstance(x.value, ast.Name) and x.value.id in ("self", "cls"):
+                        defined.add(x.attr)
+                    elif isinstance(x, ast.Call) and src(x.func) in ("object.__setattr__", "setattr") and len(x.args) >= 2 and isinstance(x.args[1], ast.Constant) and isinstance(x.args[1].value, str):
+                        defined.add(x.args[1].value)
+        # abstract classes may rely on what every concrete subclass provides
+        subs = [k for k in m.subclasses(c, strict=True)]
+        for f in c.methods.values():
+            if not f.params or f.params[0] != "self":
+                continue
+            for x in ast.walk(f.node):
+                if not (isinstance(x, ast.Attribute) and isinstance(x.ctx, ast.Load) and isinstance(x.value, ast.Name) and x.value.id == "self"):
+                    continue
+                if x.attr.startswith("__") and x.attr.endswith("__"):
+                    continue
+                n += 1
+                if x.attr in defined:
+                    continue
+                provided_below = bool(subs) and all(
+                    any(x.attr in (set(kk.methods) | set(kk.class_assigns) | set(kk.own_annotations) | {fl.name for fl in kk.own_fields}) for kk in m.mro(k))
+                    for k in subs
+                    if not m.is_abstract(k)
+                ) and (m.is_abstract(c) or c.name not in constructed)
+                inst = f"{c.module.rel}:{c.name}.{f.name}:self.{x.attr}"
+                if provided_below:
+                    run.ok(rule, inst, {"provided_by": "every concrete subclass"})
+                else:
+                    run.fail(rule, inst, f"{c.name}.{f.name} reads `self.{x.attr}`, which neither {c.name} nor its bases define" + (f" (only {', '.join(k.name for k in subs if x.attr in {fl.name for fl in k.own_fields} | set(k.methods) | set(k.own_annotations))} has it)" if subs else "") + ": AttributeError for every other instance", fi=f, node=x)
+    run.rules[rule].instances += n
+    if n == 0:
+        raise AnalysisError("no self-attribute read found")
+
+
+def r_public_defaults(ctx: Ctx, rule: str) -> None:
+    """Default values of public parameters are behaviour every caller that omits the argument relies on."""
+    import json
+    import os
+
+    run, m = ctx.run, ctx.m
+    run.rule(
+        rule,
+        "every default value of a public function or method keeps its verified value (baseline_functions.json: defaults): "
+        "a caller that omits the argument gets the documented behaviour (the name \"0\" of a doomed relation, backtrack=True, "
+        "transfer=False, ...)",
+        expected_min=30,
+    )
+    path = os.path.join(os.path.dirname(os.path.dirname(os.path.abspath(__file__))), "baseline_functions.json")
+    with open(path, encoding="utf-8") as f:
+        base = json.load(f).get("defaults")
+    if not base:
+        raise AnalysisError("baseline_functions.json has no defaults table (regenerate with tools/gen_baseline.py)")
+    by_key = {f"{fi.module.rel}::{fi.qualname}": fi for fi in m.all_functions()}
+    for key, params in sorted(base.items()):
+        fi = by_key.get(key)
+        if fi is None:
+            continue  # renamed or removed: not this rule's business
+        a = fi.node.args
+        pos = a.posonlyargs + a.args
+        cur: dict[str, str] = {}
+        for arg, dv in zip(pos[len(pos) - len(a.defaults) :], a.defaults):
+            cur[arg.arg] = ast.unparse(dv)
+        for arg, dv in zip(a.kwonlyargs, a.kw_defaults):
+            if dv is not None:
+                cur[arg.arg] = ast.unparse(dv)
+        allp = {x.arg for x in pos + a.kwonlyargs}
+        for pname, want in params.items():
+            if pname not in allp:
+                continue  # parameter renamed / removed
+            inst = f"{key}:{pname}"
+            got = cur.get(pname)
+            if got == want:
+                run.ok(rule, inst)
+            else:
+                run.fail(rule, inst, f"{fi.qualname}({pname}=...) defaults to `{got if got is not None else '<required>'}`; the verified default is `{want}`: every caller that omits the argument now gets something else", fi=fi)
+    with open(path, encoding="utf-8") as f:
+        fbase = json.load(f).get("field_defaults") or {}
+    classes = {c.key: c for c in m.all_classes()}
+    for key, fields in sorted(fbase.items()):
+        c = classes.get(key)
+        if c is None:
+            continue
+        cur = {fl.name: ast.unparse(fl.node.value) for fl in c.own_fields if fl.node.value is not None}
+        names = {fl.name for fl in c.own_fields}
+        for fname, want in fields.items():
+            if fname not in names:
+                continue
+            inst = f"{key}.{fname}"
+            got = cur.get(fname)
+            if got == want:
+                run.ok(rule, inst)
+            else:
+                run.fail(rule, inst, f"field {c.name}.{fname} defaults to `{got if got is not None else '<required>'}`; the verified default is `{want}`", file=c.module.path, line=c.node.lineno, func=c.name)
